@@ -25,11 +25,12 @@ def secure (c : NsecConsts) (origin : Name) (L : List ZNode) : List ZNode :=
 abbrev NsecRec := Name × Name × List (Nat × Bytes)
 
 /-- the NSEC chain over a list of nodes: each points to the next, the last one to `last` (the origin);
-type bitmap = the node's own types plus RRSIG and NSEC -/
-def chain (c : NsecConsts) : List ZNode → Name → List NsecRec
+type bitmap = the node's announced types (`nsecTypes`) plus RRSIG and NSEC -/
+def chain (c : NsecConsts) (zo : Name) : List ZNode → Name → List NsecRec
   | [], _ => []
-  | [z], last => [(z.name, last, fromRdtypes (z.types ++ [c.tRRSIG, c.tNSEC]))]
-  | z :: z' :: rest, last => (z.name, z'.name, fromRdtypes (z.types ++ [c.tRRSIG, c.tNSEC])) :: chain c (z' :: rest) last
+  | [z], last => [(z.name, last, fromRdtypes (nsecTypes c zo z ++ [c.tRRSIG, c.tNSEC]))]
+  | z :: z' :: rest, last =>
+    (z.name, z'.name, fromRdtypes (nsecTypes c zo z ++ [c.tRRSIG, c.tNSEC])) :: chain c zo (z' :: rest) last
 
 def nsecsOf (es : List Evt) : List NsecRec :=
   es.filterMap fun e => match e with
@@ -64,13 +65,13 @@ def absDeleg (deleg : Option Name) : Option Name :=
   | some d => if truthy d then some d else none
   | none => none
 
-def linkRec (c : NsecConsts) (nodes : List ZNode) (ws : Bool) (prev : Option Name) (name : Name) : List NsecRec :=
-  nsecsOf (linkFrom c nodes ws prev name)
+def linkRec (c : NsecConsts) (origin : Name) (nodes : List ZNode) (ws : Bool) (prev : Option Name) (name : Name) : List NsecRec :=
+  nsecsOf (linkFrom c origin nodes ws prev name)
 
 /-- NSEC records produced while walking `vs` when the previously visited name is `prev` -/
-def linksE (c : NsecConsts) (nodes : List ZNode) (ws : Bool) : Option Name → List ZNode → List NsecRec
+def linksE (c : NsecConsts) (origin : Name) (nodes : List ZNode) (ws : Bool) : Option Name → List ZNode → List NsecRec
   | _, [] => []
-  | prev, v :: vs => linkRec c nodes ws prev v.name ++ linksE c nodes ws (some v.name) vs
+  | prev, v :: vs => linkRec c origin nodes ws prev v.name ++ linksE c origin nodes ws (some v.name) vs
 
 def lastName (prev : Option Name) (vs : List ZNode) : Option Name :=
   match vs.getLast? with
@@ -125,7 +126,7 @@ theorem absDeleg_newDeleg (c : NsecConsts) (origin : Name) (z : ZNode) :
 theorem fold_visit (c : NsecConsts) (origin : Name) (nodes : List ZNode) (ws : Bool) (L : List ZNode) :
     ∀ st : WalkSt,
       nsecsOf (L.foldl (walkStep c origin nodes ws) st).out =
-        nsecsOf st.out ++ linksE c nodes ws st.lastSecure (visit c origin (absDeleg st.delegation) L) ∧
+        nsecsOf st.out ++ linksE c origin nodes ws st.lastSecure (visit c origin (absDeleg st.delegation) L) ∧
       (L.foldl (walkStep c origin nodes ws) st).lastSecure =
         lastName st.lastSecure (visit c origin (absDeleg st.delegation) L) := by
   induction L with
@@ -147,12 +148,12 @@ theorem fold_visit (c : NsecConsts) (origin : Name) (nodes : List ZNode) (ws : B
         simp only [visit, hs', Bool.false_eq_true, if_false]
       have hstep : walkStep c origin nodes ws st z =
           { delegation := newDeleg c origin z, lastSecure := some z.name,
-            out := st.out ++ signEvts c ws (newDeleg c origin z) z ++ linkFrom c nodes ws st.lastSecure z.name } := by
+            out := st.out ++ signEvts c ws (newDeleg c origin z) z ++ linkFrom c origin nodes ws st.lastSecure z.name } := by
         unfold walkStep
         rw [skipTest_eq, hs']; rfl
       rw [hstep, hv]
       obtain ⟨h1, h2⟩ := ih ⟨newDeleg c origin z, some z.name,
-            st.out ++ signEvts c ws (newDeleg c origin z) z ++ linkFrom c nodes ws st.lastSecure z.name⟩
+            st.out ++ signEvts c ws (newDeleg c origin z) z ++ linkFrom c origin nodes ws st.lastSecure z.name⟩
       simp only [absDeleg_newDeleg] at h1 h2
       constructor
       · rw [h1]
@@ -315,11 +316,12 @@ theorem visit_eq_secure (c : NsecConsts) (origin : Name) (L : List ZNode)
 
 /-! ## linking the visited names -/
 
-def bmOf (c : NsecConsts) (v : ZNode) : List (Nat × Bytes) := fromRdtypes (v.types ++ [c.tRRSIG, c.tNSEC])
+def bmOf (c : NsecConsts) (origin : Name) (v : ZNode) : List (Nat × Bytes) :=
+  fromRdtypes (nsecTypes c origin v ++ [c.tRRSIG, c.tNSEC])
 
-theorem addNsec_rec (c : NsecConsts) (nodes : List ZNode) (ws : Bool) (v : ZNode) (next : Name)
+theorem addNsec_rec (c : NsecConsts) (origin : Name) (nodes : List ZNode) (ws : Bool) (v : ZNode) (next : Name)
     (hl : lookupNode nodes v.name = some v) (ht : v.types ≠ []) (hn : next ≠ []) :
-    nsecsOf (addNsec c nodes ws v.name next) = [(v.name, next, bmOf c v)] := by
+    nsecsOf (addNsec c origin nodes ws v.name next) = [(v.name, next, bmOf c origin v)] := by
   have h1 : (v.types.length != 0) = true := by
     cases hv : v.types with
     | nil => exact absurd hv ht
@@ -333,31 +335,31 @@ theorem addNsec_rec (c : NsecConsts) (nodes : List ZNode) (ws : Bool) (v : ZNode
   simp only [h1, h2, Bool.and_self, if_true]
   cases ws <;> simp [nsecsOf, bmOf]
 
-def closeRec (c : NsecConsts) (nodes : List ZNode) (ws : Bool) (last : Option Name) (origin : Name) : List NsecRec :=
+def closeRec (c : NsecConsts) (origin : Name) (nodes : List ZNode) (ws : Bool) (last : Option Name) : List NsecRec :=
   match last with
-  | some l => nsecsOf (addNsec c nodes ws l origin)
+  | some l => nsecsOf (addNsec c origin nodes ws l origin)
   | none => []
 
 structure Good (nodes : List ZNode) (v : ZNode) : Prop where
   look : lookupNode nodes v.name = some v
   types : v.types ≠ []
 
-theorem links_chain (c : NsecConsts) (nodes : List ZNode) (ws : Bool) (origin : Name) (ho : origin ≠ []) :
+theorem links_chain (c : NsecConsts) (origin : Name) (nodes : List ZNode) (ws : Bool) (ho : origin ≠ []) :
     ∀ (V : List ZNode) (p : ZNode), Good nodes p → (∀ v ∈ V, Good nodes v ∧ v.name ≠ []) →
-      linksE c nodes ws (some p.name) V ++ closeRec c nodes ws (lastName (some p.name) V) origin =
-        chain c (p :: V) origin := by
+      linksE c origin nodes ws (some p.name) V ++ closeRec c origin nodes ws (lastName (some p.name) V) =
+        chain c origin (p :: V) origin := by
   intro V
   induction V with
   | nil =>
     intro p gp _
     simp only [linksE, lastName, List.getLast?_nil, closeRec, List.nil_append, chain]
-    exact addNsec_rec c nodes ws p origin gp.look gp.types ho
+    exact addNsec_rec c origin nodes ws p origin gp.look gp.types ho
   | cons v vs ih =>
     intro p gp hV
     obtain ⟨gv, hvn⟩ := hV v (by simp)
     have := ih v gv (fun x hx => hV x (by simp [hx]))
     simp only [linksE, lastName_cons, chain, linkRec, linkFrom, List.append_assoc]
-    rw [this, addNsec_rec c nodes ws p v.name gp.look gp.types hvn]
+    rw [this, addNsec_rec c origin nodes ws p v.name gp.look gp.types hvn]
     rfl
 
 theorem filter_tail_subset {α} (p : α → Bool) (L : List α) : ∀ x ∈ (L.filter p).tail, x ∈ L.tail := by
@@ -395,7 +397,7 @@ theorem walk_chain (c : NsecConsts) (v : LastVariant) (origin : Name) (nodes : L
     (H3 : ∀ x ∈ L, ∀ y ∈ L, ∀ z ∈ L, subOf x y = true → subOf y z = true → subOf x z = true)
     (HC : contig L = true)
     (hv : v = .intended ∨ ∀ z, (secure c origin L).getLast? = some z → z.name ≠ []) :
-    nsecsOf (walkSorted c v origin nodes ws L) = chain c (secure c origin L) origin := by
+    nsecsOf (walkSorted c v origin nodes ws L) = chain c origin (secure c origin L) origin := by
   have hvis := visit_eq_secure c origin L H1 H3 HC
   obtain ⟨hout, hlast⟩ := fold_visit c origin nodes ws L { delegation := none, lastSecure := none, out := [] }
   simp only [absDeleg, hvis] at hout hlast
@@ -406,7 +408,7 @@ theorem walk_chain (c : NsecConsts) (v : LastVariant) (origin : Name) (nodes : L
   have htl : ∀ z ∈ (secure c origin L).tail, z.name ≠ [] := fun z hz => htail z (filter_tail_subset _ L z hz)
   -- the closing record is always written under the stated guard
   have hclose : nsecsOf (walkSorted c v origin nodes ws L) =
-      linksE c nodes ws none (secure c origin L) ++ closeRec c nodes ws (lastName none (secure c origin L)) origin := by
+      linksE c origin nodes ws none (secure c origin L) ++ closeRec c origin nodes ws (lastName none (secure c origin L)) := by
     have htr : ∀ l, lastName none (secure c origin L) = some l → v = .asShipped → truthy l = true := by
       intro l hl hvs
       rcases hv with hv | hv
@@ -437,7 +439,7 @@ theorem walk_chain (c : NsecConsts) (v : LastVariant) (origin : Name) (nodes : L
   | cons p V =>
     rw [hV] at hgood htl
     simp only [linksE, linkRec, linkFrom, nsecsOf, List.filterMap_nil, List.nil_append, lastName_cons]
-    exact links_chain c nodes ws origin ho V p (hgood p (by simp))
+    exact links_chain c origin nodes ws ho V p (hgood p (by simp))
       (fun x hx => ⟨hgood x (by simp [hx]), htl x (by simpa using hx)⟩)
 
 /-! ## what sortedness of the node list gives for free -/
